@@ -47,7 +47,7 @@ static int doc_printer(void *doc) { (void)doc; return 0; }
 #define MAXS 2048
 #define MAXA 400000
 
-typedef struct { char kind; int arg; } ActC;      /* P F S p(MP) f(MF) K E U Z */
+typedef struct { char kind; int arg; char *text; } ActC;      /* P F S p(MP) f(MF) K E U Z X Y */
 typedef struct {
     char path[16384];
     char name[6000];
@@ -91,6 +91,13 @@ static TestC *current(void) {
 }
 
 static int decl_counter;
+static const char *current_file = "scenario";
+static const char *running_file = "scenario";
+static char *unhex_text(const char *h) {
+    size_t n = strlen(h) / 2; char *t = (char *)malloc(n + 1);
+    for (size_t i = 0; i < n; i++) { unsigned v; sscanf(h + 2 * i, "%2x", &v); t[i] = (char)v; }
+    t[n] = 0; return t;
+}
 static volatile int program_global;
 
 static int probe_fn(void) { return (int)mock(); }
@@ -102,6 +109,15 @@ static void do_acts(ActC *acts, int n) {
         case 'P': assert_that(1, is_equal_to(1)); break;
         case 'F': assert_that(i, is_equal_to(-1)); break;
         case 'S': skip_test(); break;
+        case 'X': assert_true_with_message(0, "%s", acts[i].text); break;           /* the text as an argument */
+        case 'Y': {                                                                  /* the text as the (percent-doubled) format, as assert_that() passes it */
+            char *doubled = (char *)malloc(2 * strlen(acts[i].text) + 1), *d = doubled;
+            for (const char *c = acts[i].text; *c; c++) { if (*c == '%') *d++ = '%'; *d++ = *c; }
+            *d = 0;
+            (*get_test_reporter()->assert_true)(get_test_reporter(), running_file, 7, 0, doubled);
+            free(doubled);
+            break;
+        }
         case 'p': never_expect_(get_test_reporter(), mock_names[decl_counter++ % 256], "scenario", i, (Constraint *)0); break;
         case 'f': expect_(get_test_reporter(), mock_names[decl_counter++ % 256], "scenario", i, (Constraint *)0); break;
         case 'K': kill(getpid(), acts[i].arg); pause(); break;
@@ -130,7 +146,7 @@ static void do_acts(ActC *acts, int n) {
     }
 }
 
-static void scripted_body(void) { TestC *t = current(); log_event("body"); decl_counter = 0; if (t) do_acts(t->body, t->nbody); }
+static void scripted_body(void) { TestC *t = current(); log_event("body"); decl_counter = 0; if (t) { running_file = t->spec.filename; do_acts(t->body, t->nbody); } }
 static void ctx_setup(void) { TestC *t = current(); log_event("ctxSetup"); if (t) do_acts(t->setup, t->nsetup); }
 static void ctx_teardown(void) { TestC *t = current(); log_event("ctxTeardown"); if (t) do_acts(t->teardown, t->nteardown); }
 static void suite_setup(void) { log_event("suiteSetup"); }
@@ -144,10 +160,11 @@ static int parse_acts(char *s, ActC **out) {
     ActC *start = pool + used;
     int n = 0;
     for (char *tok = strtok(s, " \t\n"); tok; tok = strtok(NULL, " \t\n")) {
-        ActC a = { 0, 0 };
+        ActC a = { 0, 0, NULL };
         if (!strcmp(tok, "P")) a.kind = 'P';
         else if (!strcmp(tok, "F")) a.kind = 'F';
         else if (!strcmp(tok, "S")) a.kind = 'S';
+        else if (tok[0] == 'X' || tok[0] == 'Y') { a.kind = tok[0]; a.text = unhex_text(tok + 1); }
         else if (!strcmp(tok, "MP")) a.kind = 'p';
         else if (!strcmp(tok, "MF")) a.kind = 'f';
         else if (!strcmp(tok, "E")) a.kind = 'E';
@@ -203,6 +220,9 @@ int main(int argc, char **argv) {
             if (sp > 0) { add_suite_(stack[sp - 1], strdup(name), s); snprintf(paths[sp], sizeof paths[sp], "%s/%s", paths[sp - 1], name); }
             else { root = s; snprintf(paths[sp], sizeof paths[sp], "%s", name); }
             stack[sp++] = s;
+        } else if (!strncmp(buf, "file ", 5)) {
+            buf[strcspn(buf, "\n")] = 0;
+            current_file = unhex_text(buf + 5);
         } else if (!strncmp(buf, "end", 3)) {
             sp--;
         } else if (!strncmp(buf, "test ", 5)) {
@@ -220,7 +240,7 @@ int main(int argc, char **argv) {
             t->spec.context = t->ctx ? &scripted_ctx : &defaultContext;
             t->spec.name = t->name;
             t->spec.run = &scripted_body;
-            t->spec.filename = "scenario";
+            t->spec.filename = current_file;
             t->spec.line = ntests;
             add_test_(stack[sp - 1], t->name, &t->spec);
         }
